@@ -227,6 +227,8 @@ def random_case(seed):
     try:
         if two:
             o1 = mk(1 if lmax == 7 else rng.randint(1, 2))
+            if rng.random() < 0.3:
+                o1 = o0        # the very same basis object at two geometries (two frames of a trajectory)
             # the second basis has its own geometry: the same centre index does not mean the same position
             xyz1 = xyz if rng.random() < 0.4 else xyz + np.array([[rng.uniform(-1.5, 1.5) for _ in range(3)] for _ in range(ncenter)])
             ev["othergeom"] = xyz1 is not xyz
